@@ -10,7 +10,8 @@ Case = {'ops': [...]}, ops:
   ['delmon', name]
   ['sched', name, [ids]]          state['scheduled'][name] = sorted instance names
   ['tick', dt]
- ['restart']                     the monitor process restarts (new `_run_sync` over the existing nodes)
+ ['create', name, count, loss]  the cell API's masterapi.create_apps for a create request (loss: index of the create whose reply is lost)
+  ['restart']                    the monitor process restarts (new `_run_sync` over the existing nodes)
   ['reconn', lost]                the ZooKeeper connection is suspended (lost=1: session lost) and re-established
   ['eval', {name: outcome}]       outcome of the REST call made for `name` in this evaluation
                                   (ok | nf | br | ve | ex)
@@ -71,7 +72,9 @@ def gen_case(rng, pid, tier):
             for _ in range(min(len(l), rng.randint(1, 3))):
                 l.pop(rng.randrange(len(l)))
             ops.append(['sched', n, sorted(l)])
-        elif r < 0.53:
+        elif r < 0.525:
+            ops.append(['create', rng.choice(names), rng.randint(1, 4), rng.choice([None, None, 0, 1, 2, 3])])
+        elif r < 0.535:
             ops.append(['restart'])
         elif r < 0.56:
             ops.append(['reconn', 1 if rng.random() < 0.3 else 0])
@@ -233,12 +236,27 @@ def run_impl(case, pid):
         def make_default_acl(acl):
             return ['default'] + list(acl or [])
 
+        loss_at = None           # the reply of the (loss_at+1)-th sequence create from now on is lost
+        seq_creates = 0
+
         def create(self, path, value=b'', acl=None, ephemeral=False, sequence=False, makepath=False):
+            if sequence:
+                self.seq_no = getattr(self, 'seq_no', 0) + 1
+                path = '%s%010d' % (path, self.seq_no)
             if path in self.nodes:
                 raise _ke.NodeExistsError(path)
             self.zxid += 1
             self.nodes[path] = [value, self.zxid, self.zxid, 0]
+            if sequence:
+                self.seq_creates += 1
+                if self.loss_at is not None and self.seq_creates == self.loss_at + 1:
+                    self.loss_at = None
+                    raise _ke.ConnectionLoss('reply lost')       # the ensemble applied the create
             return path
+
+        @staticmethod
+        def make_servers_acl():
+            return 'servers:rwcda'
 
         def set(self, path, value, version=-1):
             if path not in self.nodes:
@@ -370,6 +388,27 @@ def run_impl(case, pid):
                 fzk.reconnect(bool(op[1]))
                 run.tags.add('reconnect-lost' if op[1] else 'reconnect-suspended')
                 run.op('reconn', 'ok')
+            elif k == 'create':
+                # the cell API's side of a create request: real masterapi.create_apps on the fake ensemble, with
+                # the reply of one create possibly lost
+                _, n, count, loss = op
+                fzk.loss_at, fzk.seq_creates = loss, 0
+                before_n = len(fzk.get_children('/scheduled'))
+                try:
+                    with mock.patch('treadmill.trace.post_zk', lambda *_a, **_k: None):
+                        _masterapi.create_apps(fzk, app(n), {'memory': '1G'}, count)
+                    res = 'ok'
+                except _ke.ConnectionLoss:
+                    res = 'lost'
+                fzk.loss_at = None
+                made = len(fzk.get_children('/scheduled')) - before_n
+                run.tags.add('api-create' if loss is None or loss >= count else 'api-create-reply-lost')
+                run.op('fcreate %d %s' % (count, '-' if loss is None else loss), '%s %d' % (res, made))
+                if made > count:
+                    run.hits.append(fw.Hit(clause='created-more-than-asked', call_site='masterapi.create_apps',
+                                           detail='asked %d, scheduled %d (reply of create %s lost)' % (count, made, loss)))
+                for pth in [q for q in fzk.nodes if q.startswith('/scheduled/')]:
+                    del fzk.nodes[pth]
             elif k == 'restart':
                 # the monitor process restarts: a new `_run_sync` on the nodes there are - every monitor is picked
                 # up in ONE children event, the scheduled instances in one, the suspension table is read back
